@@ -61,10 +61,11 @@ I3 ==
 M1 ==
   \E v4 \in InjSeqs({Rule("tcp80", "ACCEPT"), Rule("state", "ACCEPT"), Rule("drop", "DROP"), Rule("negsrc", "DROP")}, MaxLen),
      pre \in InjSeqs({Rule("udprange", "ACCEPT"), Rule("loglevel", "LOG"), Rule("mark", "MARK")}, 3),
-     app \in InjSeqs({Rule("nosyn", "ACCEPT"), Rule("rawdrop", "DROP")}, 2) :
+     app \in InjSeqs({Rule("nosyn", "ACCEPT"), Rule("rawdrop", "DROP")}, 2),
+     xc, xt \in BOOLEAN :        \* the raw file also defines a chain / a table of its own
     /\ dev = Cfg({}, NoFn)
     /\ tgt = [routes |-> {}, tables |-> [filter |-> [INPUT |-> Chain("DROP", v4)]],
-              parts |-> [v4 |-> v4, v6 |-> <<>>, pre |-> pre, app |-> app]]
+              parts |-> [v4 |-> v4, v6 |-> <<>>, pre |-> pre, app |-> app, xchain |-> xc, xtable |-> xt]]
 
 Init == CASE Fam = "I3" -> I3 [] Fam = "R1" -> R1 [] Fam = "I1" -> I1 [] Fam = "I2" -> I2 [] Fam = "M1" -> M1
 Next == UNCHANGED <<dev, tgt>>
